@@ -130,7 +130,8 @@ theorem push_cnt (cfg : Cfg) (x : Ev) (s : St) : Cnt s (push cfg x s) := by
 theorem subscribe_fresh_outcome (cfg : Cfg) {s : St} (hi : Inv s) (hsub : s.subject = none) :
     ∃ u, u.panics = s.panics ∧
       ((FLive s.ngens s.nsubs u ∧ subscribe cfg s = liveDone s.nsubs s.ngens u) ∨
-       ((∃ k, SafePre cfg.flags (cfg.pre k) = false) ∧ FReset s.ngens s.nsubs u ∧ subscribe cfg s = resetDone s.ngens u) ∨
+       ((∃ k, SafePre cfg.flags (cfg.pre k) = false) ∧ FReset s.ngens s.nsubs u ∧
+          subscribe cfg s = (if cfg.fixed then resetDoneFixed s.ngens u else resetDone s.ngens u)) ∨
        (FLatch s.ngens s.nsubs u ∧ subscribe cfg s = latchDone s.ngens u)) := by
   obtain ⟨u0, k, hsim, he⟩ := subscribe_fresh_eq cfg hi hsub
   have hl := (flive_freshState cfg.conn hi hsub).sim hsim
@@ -138,9 +139,12 @@ theorem subscribe_fresh_outcome (cfg : Cfg) {s : St} (hi : Inv s) (hsub : s.subj
   · rw [(playPre_cnt cfg s.ngens (cfg.pre k) u0).panics, hsim.panics]; rfl
   · rw [he]
     rcases playPre_live cfg (cfg.pre k) hl with h | ⟨hns, h⟩ | h
-    · exact Or.inl ⟨h, (finish_live cfg.flags h).1⟩
-    · exact Or.inr (Or.inl ⟨⟨k, hns⟩, h, (finish_reset cfg.flags h).1⟩)
-    · exact Or.inr (Or.inr ⟨h, (finish_latch cfg.flags h).1⟩)
+    · exact Or.inl ⟨h, (finish_live cfg.fixed cfg.flags h).1⟩
+    · refine Or.inr (Or.inl ⟨⟨k, hns⟩, h, ?_⟩)
+      cases hfx : cfg.fixed
+      · simpa using (finish_reset cfg.flags h).1
+      · simpa using (finish_reset_fixed cfg.flags h).1
+    · exact Or.inr (Or.inr ⟨h, (finish_latch cfg.fixed cfg.flags h).1⟩)
 
 theorem subscribe_ngens (cfg : Cfg) {s : St} (hi : Inv s) :
     (subscribe cfg s).ngens = if s.subject = none then s.ngens + 1 else s.ngens := by
@@ -148,7 +152,7 @@ theorem subscribe_ngens (cfg : Cfg) {s : St} (hi : Inv s) :
   | none =>
     obtain ⟨u, _, h | ⟨_, h⟩ | h⟩ := subscribe_fresh_outcome cfg hi hsub
     · rw [h.2]; simp [liveDone, h.1.ngens]
-    · rw [h.2]; simp [resetDone, h.1.ngens]
+    · rw [h.2]; split <;> simp [resetDone, resetDoneFixed, h.1.ngens]
     · rw [h.2]; simp [latchDone, h.1.ngens]
   | some g =>
     rcases (hi.cur g hsub).2 with ha | hl
@@ -700,7 +704,8 @@ theorem src_terminal (cfg : Cfg) {s : St} {g : Nat} (t : Ev) (ht : t.isTerminal 
     synchronous prefix is not `SafePre` -/
 theorem panics_step (cfg : Cfg) {s : St} (hi : Inv s) (e : Event) :
     (step cfg s e).panics = s.panics ∨
-    ((step cfg s e).panics = s.panics + 1 ∧ e = .sub ∧ s.subject = none ∧ ∃ k, SafePre cfg.flags (cfg.pre k) = false) := by
+    ((step cfg s e).panics = s.panics + 1 ∧ e = .sub ∧ s.subject = none ∧ cfg.fixed = false ∧
+      ∃ k, SafePre cfg.flags (cfg.pre k) = false) := by
   cases e with
   | sub =>
     show (subscribe cfg s).panics = _ ∨ _
@@ -708,7 +713,9 @@ theorem panics_step (cfg : Cfg) {s : St} (hi : Inv s) (e : Event) :
     | none =>
       obtain ⟨u, hu, h | ⟨hns, h⟩ | h⟩ := subscribe_fresh_outcome cfg hi hsub
       · left; rw [h.2]; simp [liveDone, hu]
-      · right; refine ⟨?_, rfl, rfl, hns⟩; show (subscribe cfg s).panics = _; rw [h.2]; simp [resetDone, hu]
+      · cases hfx : cfg.fixed
+        · right; refine ⟨?_, rfl, rfl, rfl, hns⟩; show (subscribe cfg s).panics = _; rw [h.2, hfx]; simp [resetDone, hu]
+        · left; show (subscribe cfg s).panics = _; rw [h.2, hfx]; simp [resetDoneFixed, hu]
       · left; rw [h.2]; simp [latchDone, hu]
     | some g =>
       left
@@ -724,16 +731,18 @@ theorem panics_step (cfg : Cfg) {s : St} (hi : Inv s) (e : Event) :
     · rfl
   | src x => left; exact (push_cnt cfg x s).panics
 
-theorem panics_run_safe (cfg : Cfg) (hsafe : cfg.Safe) (evs : List Event) : (run cfg evs).panics = 0 := by
+theorem panics_run_safe (cfg : Cfg) (hsafe : cfg.Safe ∨ cfg.fixed = true) (evs : List Event) : (run cfg evs).panics = 0 := by
   suffices h : ∀ (s : St), Inv s → s.panics = 0 → (evs.foldl (step cfg) s).panics = 0 from h {} Inv.init rfl
   induction evs with
   | nil => intro s _ h; exact h
   | cons e es ih =>
     intro s hi hp
     apply ih (step cfg s e) (inv_step cfg hi e)
-    rcases panics_step cfg hi e with h | ⟨_, _, _, k, hk⟩
+    rcases panics_step cfg hi e with h | ⟨_, _, _, hfx, k, hk⟩
     · rw [h]; exact hp
-    · rw [hsafe k] at hk; cases hk
+    · rcases hsafe with hsafe | hsafe
+      · rw [hsafe k] at hk; cases hk
+      · rw [hsafe] at hfx; cases hfx
 
 /-! ### nobody else's trace is touched by `sub` / `unsub` -/
 
@@ -781,7 +790,7 @@ theorem fresh_hot_trace (cfg : Cfg) (hhot : cfg.Hot) {s : St} (hi : Inv s) (hsub
   obtain ⟨u0, k, hsim, he⟩ := subscribe_fresh_eq cfg hi hsub
   have hl := (flive_freshState cfg.conn hi hsub).sim hsim
   have hpre : playPre cfg s.ngens (cfg.pre k) u0 = u0 := by rw [hhot k]; rfl
-  obtain ⟨hfe, hfi, hfa, hfs⟩ := finish_live cfg.flags hl
+  obtain ⟨hfe, hfi, hfa, hfs⟩ := finish_live cfg.fixed cfg.flags hl
   have hfinal : subscribe cfg s = liveDone s.nsubs s.ngens u0 := by rw [he, hpre, hfe]
   have hlive : (subscribe cfg s).live = 1 := by
     have hinv := subscribe_cases cfg hi
@@ -793,8 +802,8 @@ theorem fresh_hot_trace (cfg : Cfg) (hhot : cfg.Hot) {s : St} (hi : Inv s) (hsub
     unfold r3 srcSubscribe
     rw [hhot]
     have hbuf : (Subj.new cfg.conn).buf = [] := by cases cfg.conn <;> rfl
-    cases hc : cfg.conn <;>
-      simp [playPre, upAddTeardown, r3tail, addTeardown, subjRegister, newSub, Spec.joined, Subj.new] <;>
+    cases hc : cfg.conn <;> cases hfx : cfg.fixed <;>
+      simp [playPre, upAddTeardown, r3tail, ssAdd, addTeardown, subjRegister, newSub, Spec.joined, Subj.new] <;>
       (repeat' split) <;> simp_all [Subj.new]
   · rw [hfinal]
     simp [liveDone]
@@ -803,6 +812,7 @@ theorem fresh_hot_trace (cfg : Cfg) (hhot : cfg.Hot) {s : St} (hi : Inv s) (hsub
     rw [hsubscribe, eL, eR, e1]
     unfold r3 srcSubscribe
     rw [hhot]
-    simp [playPre, upAddTeardown, r3tail, addTeardown, subjRegister, newSub, hk']
+    cases hfx : cfg.fixed <;> simp [playPre, upAddTeardown, r3tail, ssAdd, addTeardown, subjRegister, newSub, hk'] <;>
+      (repeat' split) <;> simp_all
 
 end Ro.Share
